@@ -6,7 +6,7 @@ the symbolic post-state with the concrete one), not proved.
 """
 from pyvc.spec import *  # noqa
 from pyvc import types as T
-from pyvc.engine import Unsupported
+from pyvc.engine import Unsupported, REG
 import z3
 
 # a scoreboard slot: None (free) or "something" (flag word or Task)
@@ -18,13 +18,13 @@ fields_of("TimeInterval", start=DT, end=DT)
 
 def _sb_getitem(ex, st, base, idxnode, node):
     # Scoreboard.__getitem__(idx) = self.sb[idx]
-    sbv = ex.h.get_field(st, base.t, "Scoreboard.sb", List(Slot))
+    sbv = ex.h.get_field(st, base.t, "Scoreboard.sb", REG.fields["Scoreboard.sb"])
     i = ex.ev(idxnode, st)
     return ex.list_index(st, sbv, i, node)
 
 
 def _sb_setitem(ex, st, base, idxnode, v, node):
-    sbv = ex.h.get_field(st, base.t, "Scoreboard.sb", List(Slot))
+    sbv = ex.h.get_field(st, base.t, "Scoreboard.sb", REG.fields["Scoreboard.sb"])
     i = ex.ev(idxnode, st)
     eff = ex.list_index(st, sbv, i, node, write=True)
     ex.h.list_put(st, sbv.ty, sbv.t, eff, v)
